@@ -688,6 +688,125 @@ def _incs_in(cfg, blks):
     return out
 
 
+def r11_5(prog, rep):
+    """Decision table of the submission gate.  _inject_task1() learns who asks (uc, from the socket credentials) and for whom (oc, the
+    task's owner); either may be unset.  Walked with the three uids fixed to each row of the table (value-fixed walk; the rest forks):
+    a submission may go on to the task table only when asker and owner agree, or when the one that is given is the daemon's own uid
+    (or the daemon is root).  The defaulting of the unset side must therefore not happen before these tests."""
+    rid = "R11.5"
+    f = prog.fn("_inject_task1", DAEMON)
+    cfg = f.cfg
+    creds = {}
+    for b, i, x, line in cfg.all_elems():
+        for l, kind, nn in writes(x):
+            rhs = nn.get("init") if kind == "decl" else (nn.get("r") if nn.get("k") == "bin" and nn["op"] == "=" else None)
+            if rhs is None:
+                continue
+            r = strip_casts(cfg.resolve(rhs))
+            if r.get("k") == "call" and r.get("fn") in ("compl_owner", "compl_uid") and strip_casts(l).get("k") == "ref":
+                creds[r["fn"]] = lv(l)
+    if set(creds) != {"compl_owner", "compl_uid"}:
+        raise AnalysisBroken("R11.5: credentials of _inject_task1 not found (%s)" % creds)
+    oc, uc = creds["compl_owner"], creds["compl_uid"]
+    N = NOT_A_UID
+    rows = [
+        # (asker, owner, daemon uid, may proceed)
+        (N, N, 1000, False), (N, N, 0, False),
+        (N, 5, 1000, False), (N, 1000, 1000, True), (N, 5, 0, True),
+        (5, N, 1000, False), (1000, N, 1000, True), (5, N, 0, True),
+        (5, 6, 1000, False), (5, 6, 0, False), (5, 5, 1000, True), (5, 5, 0, True),
+    ]
+    n = 0
+    for ucv, ocv, me, want in rows:
+        reached = []
+        val = {oc: ocv, uc: ucv}
+
+        def effect(b, i, x, store):
+            upd = {}
+            for v_ in (oc, uc):
+                if store.get("$pin:" + v_):
+                    upd[v_ + ".u"] = val[v_]
+                    upd["$pin:" + v_] = None
+            for l, kind, nn in writes(x):
+                if lv(l) in (oc, uc) and strip_casts(l).get("k") == "ref":
+                    rhs = nn.get("init") if kind == "decl" else (nn.get("r") if nn.get("k") == "bin" else None)
+                    if rhs is not None and strip_casts(cfg.resolve(rhs)).get("k") == "call":
+                        upd["$pin:" + lv(l)] = 1
+            for c in calls(x):
+                if c.get("fn") in LOOKUPS + FRESH:
+                    reached.append((b, i))
+            return upd
+        AbsWalk(f, {oc + ".u", uc + ".u", "meself.uid"}, init={"meself.uid": me}, effect=effect, max_states=50000).run()
+        n += 1
+        got = bool(reached)
+        show_ = lambda v: "unset" if v == N else str(v)
+        key = "_inject_task1/gate(asker=%s,owner=%s,daemon=%s)" % (show_(ucv), show_(ocv), me)
+        if got == want:
+            rep.ok(rid, key, f.loc(), "submission %s" % ("goes on to the task table" if got else "is refused before the task table is touched"), nontrivial=(n == 1))
+        elif got:
+            rep.fail(rid, key, f.loc(), "a submission with asker=%s, owner=%s reaches the task table of a daemon running as uid %s: "
+                     "a user can queue (or replace) a task that runs as somebody else" % (show_(ucv), show_(ocv), me))
+        else:
+            rep.fail(rid, key, f.loc(), "a legitimate submission (asker=%s, owner=%s, daemon uid %s) is refused" % (show_(ucv), show_(ocv), me))
+
+
+def r11_6(prog, rep):
+    """Slot indices of the shared table are positions in *this* table: put_task_slot() re-hashes every entry into a larger table when
+    two keys collide.  An index obtained from put_task_slot()/get_task_slot() may be used on the spot; stored into an object that
+    outlives the call it goes stale with the next re-hash unless the re-hash loop rewrites that very field."""
+    rid = "R11.6"
+    SLOTFN = ("put_task_slot", "get_task_slot")
+    nsrc = 0
+    stored = []
+    for f in prog.fns_in(DAEMON):
+        if not f.cfg:
+            continue
+        cfg = f.cfg
+        tainted = set()
+        for b, i, x, line in cfg.all_elems():
+            for l, kind, nn in writes(x):
+                rhs = nn.get("init") if kind == "decl" else (nn.get("r") if nn.get("k") == "bin" and nn["op"] == "=" else None)
+                if rhs is None:
+                    continue
+                r = strip_casts(cfg.resolve(rhs))
+                if r.get("k") == "call" and r.get("fn") in SLOTFN and strip_casts(l).get("k") == "ref":
+                    tainted.add(lv(l))
+                    nsrc += 1
+        if not tainted:
+            continue
+        for b, i, x, line in cfg.all_elems():
+            for l, kind, nn in writes(x):
+                l_ = strip_casts(l)
+                rhs = nn.get("r") if nn.get("k") == "bin" and nn["op"] == "=" else None
+                if rhs is None or l_.get("k") != "mem":
+                    continue
+                r = strip_casts(cfg.resolve(rhs))
+                rv = root_var(l_)
+                if r.get("k") == "ref" and r.get("n") in tainted and (l_.get("arrow") or (rv is not None and rv.get("dk") in ("global", "slocal"))):
+                    stored.append((f, l_["f"], lv(l_), nn.get("line", line)))
+    if nsrc < 2:
+        rep.broken_("rule=R11.6 expected >=2 uses of put_task_slot/get_task_slot results, found %d" % nsrc)
+        return
+    if not stored:
+        rep.ok(rid, "task_ht/slot-not-kept", "src/echsd.c", "no slot index of the task table is stored beyond the call that obtained it (%d lookups)" % nsrc)
+        return
+    # the re-hash: the loop of put_task_slot that copies entries of task_ht into the new table
+    pts = prog.fn("put_task_slot", DAEMON)
+    rewrites = set()
+    for b, i, x, line in pts.cfg.all_elems():
+        for l, kind, nn in writes(x):
+            l_ = strip_casts(l)
+            if l_.get("k") == "mem":
+                rewrites.add(l_["f"])
+    for f, fld, text, line in stored:
+        key = "%s/slot-kept(%s)" % (f.name, fld)
+        if fld in rewrites:
+            rep.ok(rid, key, f.loc(line), "%s keeps a slot index and the re-hash in put_task_slot() rewrites ->%s" % (text, fld))
+        else:
+            rep.fail(rid, key, f.loc(line), "%s keeps a slot index of task_ht, but put_task_slot() moves every entry when it grows the table and does not "
+                     "update ->%s: after a re-hash the task is looked up at a stale position (cancel is acknowledged, the entry stays in the map)" % (text, fld))
+
+
 def run(prog, rep, tier, snap):
     rep.rule("R11.1", "ownership test dominates every effect on a task handle taken from the shared table; uid gate of cmd_http", 15)
     n = rep.call(r11_1, prog, rep)
@@ -699,5 +818,9 @@ def run(prog, rep, tier, snap):
     rep.call(r11_3, prog, rep)
     rep.rule("R11.4", "counted traversals of the shared task table cover every slot", 4)
     rep.call(r11_4, prog, rep)
+    rep.rule("R11.5", "decision table of the submission gate (asker, owner, daemon uid)", 12)
+    rep.call(r11_5, prog, rep)
+    rep.rule("R11.6", "slot indices of the task table are not kept across a re-hash", 1)
+    rep.call(r11_6, prog, rep)
 
 READY = True
